@@ -254,8 +254,9 @@ def rule_wide_msg(ctx, crate, rule="R-WIDE-MSG"):
         for (cb, i, j, s) in K.constructions(crate, PSD, bodies=[fs]):
             rv = s["rv"]
             f = dict(zip(rv["fields"], rv["ops"]))
-            ok = all(fs.slice(f[k], at=i).has_field(k, "style::TemplatePart") and not fs.slice(f[k], at=i, through_calls=False).calls
-                     and not [a for a in fs.slice(f[k], at=i).atoms if a[0] in ("binop", "unop")] for k in ("width", "align", "truncate"))
+            ok = all(fs.slice(f[k], at=i).has_field(k, "style::TemplatePart")
+                     and not fs.slice(f[k], at=i, through_calls=False).calls_matching(r"core::num::.*", r"std::cmp::.*", r"std::ops::.*", r"std::option::Option::<T>::(map|unwrap_or.*|and_then|filter)")
+                     and not [a for a in fs.slice(f[k], at=i, through_calls=False).atoms if a[0] in ("binop", "unop")] for k in ("width", "align", "truncate"))
             ctx.check(ok, rule, "placeholder-fields-forwarded", fs.name, "%s:%d" % (fs.file, s.get("line", 0)),
                       "width, alignment and truncate flag of the placeholder are the ones the template specified",
                       "the padded field does not use the placeholder's own width/alignment/truncate", cfg)
